@@ -99,6 +99,12 @@ def load_cases(prop: Optional[str] = None) -> List[dict]:
     path = os.path.join(VERIF, "selftest", "cases.json")
     with open(path, encoding="utf-8") as fh:
         cases = json.load(fh)
+    import glob
+
+    for meta in sorted(glob.glob(os.path.join(VERIF, "seeded", "*", "meta.json"))):
+        with open(meta, encoding="utf-8") as fh:
+            m = json.load(fh)
+        cases.append({"name": "seeded-" + m["id"], "property": m["property"], "patch": os.path.relpath(os.path.join(os.path.dirname(meta), "patch.diff"), VERIF), "expect": ""})
     try:
         from . import mutate
 
